@@ -426,3 +426,19 @@ Definition gwf_core_b (g : graph) : bool :=
                        Bool.eqb (n_flat (nd g m)) (n_flat n)) (class_of g i))
     (seq 0 (length (g_nodes g))) &&
   n_root (nd g (g_root g)).
+
+(* ---- hypotheses of the single-worker availability theorem (Proofs/TraverseAvail.v) as an executable check: one
+        worker, no bridged copies, no state marked for removal, no permanent-object install, own and shared pool in
+        scope, forms unique and non-zero, parents inside the graph, retry settings consistent with the node flags ---- *)
+Definition simple_b (g : graph) : bool :=
+  Nat.eqb (length (g_workers g)) 1 &&
+  forallb (fun i =>
+     let n := nd g i in
+     match n_bridged n with [] => true | _ => false end &&
+     forallb (fun o => negb (o_unset o =? 0)%N && negb (o_perm_install o)) (n_objs n) &&
+     n_own_in_scope n && n_shared_in_scope n &&
+     negb (n_form n =? 0)%N &&
+     forallb (fun j => Nat.eqb i j || negb (n_form n =? n_form (nd g j))%N) (seq 0 (length (g_nodes g))) &&
+     forallb (fun p => p <? length (g_nodes g)) (n_parents n) &&
+     Bool.eqb (dry (n_cfg n)) (n_dry n) && Bool.eqb (flat (n_cfg n)) (n_flat n) && Bool.eqb (cloned (n_cfg n)) (n_cloned n))
+    (seq 0 (length (g_nodes g))).
